@@ -175,7 +175,12 @@ struct Run : public ExecutionQueueDelegate {
   void processHadError(ProcessContext* ctx, ProcessHandle h, const Twine& message) override {
     Launch* l = byHandle(ctx, h);
     l->errors.push_back(message.str());
-    ev("process-error job=" + std::to_string(l->job) + " " + message.str());
+    // a protocol error quotes what the child sent, which can be its task identifier - derived from the queue's random
+    // build id (std::random_device): keep that out of the event log (found by the 1000-seed determinism gate)
+    std::string text = message.str();
+    size_t q = text.find("unsupported protocol: ");
+    if (q != std::string::npos) text = text.substr(0, q + 20);
+    ev("process-error job=" + std::to_string(l->job) + " " + text);
   }
   void processHadOutput(ProcessContext* ctx, ProcessHandle h, StringRef data) override {
     Launch* l = byHandle(ctx, h);
@@ -769,6 +774,8 @@ public:
     uint64_t t0 = sim::now_ns();
     run.execute();
     sim::end();
+    if (getenv("VSIM_TRACE"))
+      for (auto& l : run.log) fprintf(stderr, "  %s\n", l.c_str());
     run.res.simtime_us = (sim::now_ns() - t0) / 1000;
     run.res.evhash = run.evh.get();
     run.res.ihash = sim::interleaving_hash();
